@@ -557,14 +557,20 @@ def simplify_body(body):
             return e["e"]
         return None
 
-    def expr(e, env):
+    def expr(e, env, tail=False):
         if isinstance(e, list):
             return [expr(x, env) for x in e]
         if not isinstance(e, dict):
             return e
         k = e.get("k")
         if k == "Block":
-            return block(e, env)
+            return block(e, env, tail)
+        if k == "If" and tail:
+            n = dict(e)
+            n["cond"] = expr(e["cond"], env)
+            n["then"] = block(e["then"], env, True)
+            n["else"] = expr(e["else"], env, True) if e.get("else") is not None else None
+            return n
         if k == "Closure":
             bound = {x["name"] for p in e.get("inputs", []) for x in walk(p) if x["k"] == "PIdent"}
             env = {a: b for a, b in env.items() if a not in bound}
@@ -576,7 +582,7 @@ def simplify_body(body):
             if len(arms) == 2 and not arms[0].get("guard") and not arms[1].get("guard") and pats[0] in ("true", "false") and pats[1] in ("true", "false", "_") and pats[0] != pats[1]:
                 t, f = (arms[0], arms[1]) if pats[0] == "true" else (arms[1], arms[0])
                 mk = lambda x: x if x.get("k") == "Block" else {"k": "Block", "line": x.get("line", 0), "stmts": [{"k": "ExprStmt", "line": x.get("line", 0), "e": x, "semi": False}]}
-                return {"k": "If", "line": e.get("line", 0), "cond": expr(e["scrut"], env), "then": block(mk(t["body"]), env), "else": block(mk(f["body"]), env)}
+                return {"k": "If", "line": e.get("line", 0), "cond": expr(e["scrut"], env), "then": block(mk(t["body"]), env, tail), "else": block(mk(f["body"]), env, tail)}
             out = dict(e)
             out["scrut"] = expr(e["scrut"], env)
             out["arms"] = []
@@ -585,7 +591,7 @@ def simplify_body(body):
                 env2 = {p: q for p, q in env.items() if p not in bound}
                 a2 = dict(a)
                 a2["guard"] = expr(a["guard"], env2) if a.get("guard") else a.get("guard")
-                a2["body"] = expr(a["body"], env2)
+                a2["body"] = expr(a["body"], env2, tail)
                 out["arms"].append(a2)
             return out
         if k == "Struct":
@@ -602,7 +608,7 @@ def simplify_body(body):
             return n
         return {a: expr(b, env) for a, b in e.items()}
 
-    def block(b, env):
+    def block(b, env, tail=False):
         env = dict(env)
         stmts = list(b["stmts"])
         out = []
@@ -629,14 +635,11 @@ def simplify_body(body):
                 if s["pat"]["k"] in ("PStruct", "PTuple", "PRef") and init is not None and s.get("else") is None and strip(init)["k"] in ("Path", "Field") and all(not x.get("mut") for x in walk(s["pat"]) if x["k"] == "PIdent") and not (s["pat"]["k"] == "PTuple" and strip(init)["k"] == "Tuple"):
                     from terms import bind_pattern
 
-                    mutated = set()
-                    for r in rest:
-                        mutated |= _mutated_names(r)
-                    free = {x["path"].split("::")[0] for x in walk(init) if x["k"] == "Path"}
-                    if not (free & mutated) and not (bound & mutated):
-                        bind_pattern(s["pat"], strip(init), env)
-                        i += 1
-                        continue
+                    # the bindings are projections of the place itself (aliases), so later mutation through them is
+                    # mutation of the place: substituting the projection is exact
+                    bind_pattern(s["pat"], strip(init), env)
+                    i += 1
+                    continue
                 # `let (a, b) = (x, y);` element-wise
                 if s["pat"]["k"] == "PTuple" and init is not None and strip(init)["k"] == "Tuple" and len(strip(init)["elems"]) == len(s["pat"]["elems"]) and s.get("else") is None and all(x["k"] == "PIdent" and not x.get("mut") for x in s["pat"]["elems"]) and _pure(init):
                     mutated = set()
@@ -660,21 +663,21 @@ def simplify_body(body):
             if s["k"] == "ExprStmt":
                 e = s["e"]
                 # `if c { return X; }` followed by the rest of the block
-                if e["k"] == "If" and e.get("else") is None and rest:
+                if e["k"] == "If" and e.get("else") is None and rest and tail:
                     x = diverges_with_return(e["then"])
                     if x is not None:
                         then_b = {"k": "Block", "line": e.get("line", 0), "stmts": [{"k": "ExprStmt", "line": 0, "e": x, "semi": False}]}
                         rest_b = {"k": "Block", "line": e.get("line", 0), "stmts": rest}
-                        folded = {"k": "If", "line": e.get("line", 0), "cond": expr(e["cond"], env), "then": block(then_b, env), "else": block(rest_b, env)}
+                        folded = {"k": "If", "line": e.get("line", 0), "cond": expr(e["cond"], env), "then": block(then_b, env, True), "else": block(rest_b, env, True)}
                         out.append({"k": "ExprStmt", "line": s.get("line", 0), "e": folded, "semi": False})
                         i = len(stmts)
                         continue
-                if e["k"] == "Return" and e.get("e") is not None and not rest:
+                if e["k"] == "Return" and e.get("e") is not None and not rest and tail:
                     out.append({"k": "ExprStmt", "line": s.get("line", 0), "e": expr(e["e"], env), "semi": False})
                     i += 1
                     continue
                 s2 = dict(s)
-                s2["e"] = expr(e, env)
+                s2["e"] = expr(e, env, tail and not rest and not s.get("semi"))
                 out.append(s2)
                 i += 1
                 continue
@@ -684,7 +687,7 @@ def simplify_body(body):
         nb["stmts"] = out
         return nb
 
-    return block(copy.deepcopy(body), {})
+    return block(copy.deepcopy(body), {}, True)
 
 
 def struct_literal_fields(fn, struct_name):
@@ -738,3 +741,43 @@ def truth_paths(fn):
             continue
         out.append((sorted(fact_str(f).replace(" ", "") for f in facts_ if f[0] not in ("loop",)), vt))
     return out
+
+
+def exists_form(fn):
+    """For a boolean function of the shape "some element of C satisfies P": (collection text, predicate text with the
+    element written `$x`), or None.  Recognised: `C.any(|x| P)` (with `.iter()` and friends dropped) as the result,
+    and `for x in C { if P { return true; } } false`."""
+    import copy
+
+    def rename(e, var):
+        e = copy.deepcopy(e)
+        for n in walk(e):
+            if n["k"] == "Path" and n["path"] == var:
+                n["path"] = "$x"
+        return render(strip(e)).replace(" ", "")
+
+    def coll(e):
+        e = strip(e)
+        while e["k"] == "MethodCall" and e["method"] in ("iter", "iter_mut", "into_iter") and not e["args"]:
+            e = strip(e["recv"])
+        return render(e).replace(" ", "")
+
+    body = simplify_body(fn["body"])
+    stmts = [s for s in body["stmts"] if s["k"] != "ItemStmt"]
+    t = block_tail(body)
+    if len(stmts) == 1 and t is not None:
+        t = strip(t)
+        if t["k"] == "MethodCall" and t["method"] == "any" and len(t["args"]) == 1 and t["args"][0]["k"] == "Closure" and len(t["args"][0]["inputs"]) == 1:
+            names = [b["name"] for b in walk(t["args"][0]["inputs"][0]) if b["k"] == "PIdent"]
+            if len(names) == 1:
+                return coll(t["recv"]), rename(t["args"][0]["body"], names[0])
+    if len(stmts) == 2 and stmts[0]["k"] == "ExprStmt" and stmts[0]["e"]["k"] == "For" and t is not None and render(strip(t)) == "false":
+        lp = stmts[0]["e"]
+        names = [b["name"] for b in walk(lp["pat"]) if b["k"] == "PIdent"]
+        inner = [s for s in lp["body"]["stmts"] if s["k"] != "ItemStmt"]
+        if len(names) == 1 and len(inner) == 1 and inner[0]["k"] == "ExprStmt" and inner[0]["e"]["k"] == "If" and inner[0]["e"].get("else") is None:
+            i = inner[0]["e"]
+            th = [s for s in i["then"]["stmts"]]
+            if len(th) == 1 and th[0]["k"] == "ExprStmt" and th[0]["e"]["k"] == "Return" and th[0]["e"].get("e") is not None and render(strip(th[0]["e"]["e"])) == "true":
+                return coll(lp["iter"]), rename(i["cond"], names[0])
+    return None
